@@ -17,8 +17,17 @@ Theorem C16_merge_preserves :
   forall (shards : list shard) (b : shard),
     Forall wf_shard shards -> merge shards = Ok b ->
     view b = flat_map view (sort_prio shards).
-Proof. intros shards b Hwf H. apply binv_view. apply merge_binv; auto. Qed.
+Proof. exact merge_view. Qed.
 Print Assumptions C16_merge_preserves.
+
+(** stronger: with the whole repository record (id, priority, branch names in order, sub-repository paths) per
+    document instead of the id -- [view = map id_entry viewr] *)
+Theorem C16_merge_preserves_repo :
+  forall (shards : list shard) (b : shard),
+    Forall wf_shard shards -> merge shards = Ok b ->
+    viewr b = flat_map viewr (sort_prio shards).
+Proof. exact merge_viewr. Qed.
+Print Assumptions C16_merge_preserves_repo.
 
 (** for every input ordering: same content up to the order of the shards *)
 Theorem C16_merge_preserves_any_order :
@@ -44,12 +53,15 @@ Theorem C16_explode_preserves :
   forall (sh : shard) (outs : list shard),
     wf_shard sh -> explode sh = Ok outs ->
     flat_map view outs = view sh /\ Forall (fun o => length (sh_repos o) = 1%nat) outs.
-Proof.
-  intros sh outs Hwf H. unfold explode in H.
-  destruct (explode_docs_view sh (sh_docs sh) None None [] [] outs Hwf (conj eq_refl eq_refl) (Forall_nil _) H) as [H1 H2].
-  split; auto.
-Qed.
+Proof. exact explode_view. Qed.
 Print Assumptions C16_explode_preserves.
+
+Theorem C16_explode_preserves_repo :
+  forall (sh : shard) (outs : list shard),
+    wf_shard sh -> explode sh = Ok outs ->
+    flat_map viewr outs = viewr sh /\ Forall (fun o => length (sh_repos o) = 1%nat) outs.
+Proof. exact explode_viewr. Qed.
+Print Assumptions C16_explode_preserves_repo.
 
 (** explode after merge gives back the inputs' content *)
 Theorem C16_explode_merge_id :
@@ -105,6 +117,11 @@ Theorem C16_merge_ok_mergeable :
 Proof. exact merge_ok_mergeable. Qed.
 Print Assumptions C16_merge_ok_mergeable.
 
+Theorem C16_explode_ok_mergeable :
+  forall (sh : shard) (outs : list shard), explode sh = Ok outs -> mergeable sh.
+Proof. exact explode_ok_mergeable. Qed.
+Print Assumptions C16_explode_ok_mergeable.
+
 (** totality + preservation: on well-formed mergeable input the merge exists, shows exactly the inputs' content
     in priority order, and can itself be merged / exploded again *)
 Theorem C16_merge_total_preserves :
@@ -154,13 +171,13 @@ Print Assumptions C16_runner_accepts_only_successes.
 (** ---- "searches return the same matches", for every document-local engine.
     [engine q sh] = the result of query q over shard sh; the hypothesis says that it is the concatenation over
     the visible documents (those of live repositories, in document order) of a per-document function of the
-    repository id and the decoded document.  For indexData.Search this is what C01 proves of the search core
+    repository record (id, priority, branch names in order, sub-repository paths) and the decoded document.  For indexData.Search this is what C01 proves of the search core
     ([search = spec_search = filter (live && eval q)] with [eval] reading only the document and its repository;
     C01_search_exact_regexp_free, C01_search_exact_partial) -- here it is a HYPOTHESIS about the engine, tested by
     the Go oracle's query battery, not derived from the C01 model (whose corpus type differs). *)
 Theorem C16_search_preserved_merge :
-  forall (Q R : Type) (doc_match : Q -> N * ddoc -> list R) (engine : Q -> shard -> list R),
-    (forall q sh, engine q sh = flat_map (doc_match q) (view sh)) ->
+  forall (Q R : Type) (doc_match : Q -> srepo * ddoc -> list R) (engine : Q -> shard -> list R),
+    (forall q sh, engine q sh = flat_map (doc_match q) (viewr sh)) ->
     forall (q : Q) (shards : list shard) (b : shard),
       Forall wf_shard shards -> merge shards = Ok b ->
       engine q b = flat_map (engine q) (sort_prio shards) /\
@@ -173,13 +190,37 @@ Qed.
 Print Assumptions C16_search_preserved_merge.
 
 Theorem C16_search_preserved_explode :
-  forall (Q R : Type) (doc_match : Q -> N * ddoc -> list R) (engine : Q -> shard -> list R),
-    (forall q sh, engine q sh = flat_map (doc_match q) (view sh)) ->
+  forall (Q R : Type) (doc_match : Q -> srepo * ddoc -> list R) (engine : Q -> shard -> list R),
+    (forall q sh, engine q sh = flat_map (doc_match q) (viewr sh)) ->
     forall (q : Q) (sh : shard) (outs : list shard),
       wf_shard sh -> explode sh = Ok outs ->
       flat_map (engine q) outs = engine q sh.
 Proof. intros Q R dm engine Hloc q sh outs Hwf He. eapply search_preserved_explode; eauto. Qed.
 Print Assumptions C16_search_preserved_explode.
+
+(** an engine that only looks at the repository id (not at the rest of the repository record) is covered too *)
+Theorem C16_id_local_is_repo_local :
+  forall (Q R : Type) (dm : Q -> N * ddoc -> list R) (engine : Q -> shard -> list R),
+    (forall q sh, engine q sh = flat_map (dm q) (view sh)) ->
+    forall q sh, engine q sh = flat_map (fun e => dm q (id_entry e)) (viewr sh).
+Proof. exact id_local_repo_local. Qed.
+Print Assumptions C16_id_local_is_repo_local.
+
+(** listing: the repositories that are visible (have a document and are live), with exactly the same metadata
+    record (id, priority, branch names in order, sub-repository paths) *)
+Theorem C16_repos_preserved_merge :
+  forall (r : srepo) (shards : list shard) (b : shard),
+    Forall wf_shard shards -> merge shards = Ok b ->
+    (visible_repo r b <-> exists sh, In sh shards /\ visible_repo r sh).
+Proof. exact repos_preserved_merge. Qed.
+Print Assumptions C16_repos_preserved_merge.
+
+Theorem C16_repos_preserved_explode :
+  forall (r : srepo) (sh : shard) (outs : list shard),
+    wf_shard sh -> explode sh = Ok outs ->
+    ((exists o, In o outs /\ visible_repo r o) <-> visible_repo r sh).
+Proof. exact repos_preserved_explode. Qed.
+Print Assumptions C16_repos_preserved_explode.
 
 (** listing: per repository id the same number of visible documents, and the same repositories visible *)
 Theorem C16_listing_preserved_merge :
@@ -254,9 +295,11 @@ Example ex_65_tombstoned :
 Proof. split; [vm_compute; reflexivity|]. eexists. vm_compute. split; reflexivity. Qed.
 (** a concrete document-local engine: "files whose content id is c", reporting (repo id, file name) *)
 Example ex_search :
-  let dm := fun (c : N) (e : N * ddoc) => if N.eqb (dd_content (snd e)) c then [(fst e, dd_name (snd e))] else [] in
-  let engine := fun c sh => flat_map (dm c) (view sh) in
+  let dm := fun (c : N) (e : srepo * ddoc) =>
+              if N.eqb (dd_content (snd e)) c then [(sr_id (fst e), dd_name (snd e))] else [] in
+  let engine := fun c sh => flat_map (dm c) (viewr sh) in
   exists b, merge [ex_s1; ex_s2] = Ok b /\ engine 102%N b = [(1, 2)]%N /\
             flat_map (engine 102%N) [ex_s1; ex_s2] = [(1, 2)]%N /\
-            doc_count 1 b = 2%nat /\ doc_count 2 b = 1%nat /\ doc_count 3 b = 0%nat.
+            doc_count 1 b = 2%nat /\ doc_count 2 b = 1%nat /\ doc_count 3 b = 0%nat /\
+            map fst (viewr b) = [ex_r2; ex_r1; ex_r1].
 Proof. eexists. vm_compute. repeat split. Qed.
